@@ -13,6 +13,8 @@ batching: a list of DoGlobalIteration(k) (k in 0..5), Solve(), GetResults() call
   * OnMethodStop: exactly one per Solve(), it is the last notification of that Solve, its solution argument is the
     object Solve returns and shows (point, value, counts, accuracy) what the returned solution shows; none outside Solve;
   * listeners that do not override a callback: the inherited no-op accepts the call;
+  * a second Solver on the same problem data (the listener-free reference) is created before and run while the
+    listeners are attached to the first: none of them may be notified by it;
   * non-interference: the complete objective log (global and local phase, bitwise), the GetResults() snapshot after every
     call and the final result are identical to the run of the same batching WITHOUT listeners.
   A few cases inject an objective failure (trial >= 2) into a final Solve (Solve swallows it): OnMethodStop must still
@@ -190,12 +192,9 @@ def gen_case_a(r, idx):
 
 def run_case_a(case):
     viol = []
-    # reference run without listeners
+    # both solvers exist before anything runs; the listeners are attached to the second one only; the reference run
+    # (no listeners) is executed first, so that a notification arriving during it exposes listeners shared between solvers
     bprob, bsv = make_solver(case)
-    base = drive(case, bsv, bprob)
-    blog = full_log(bprob)
-    if any(rec["raised"] for rec in base):
-        return [], {"skipped": "the batching raises without listeners: " + str([rec["raised"] for rec in base][-1])}
     prob, sv = make_solver(case)
     events = []
     ctx = {"problem": prob, "solver": sv, "op": -1}
@@ -205,6 +204,13 @@ def run_case_a(case):
         except Exception as e:     # noqa: BLE001
             viol.append({"what": "attaching a listener raised", "mask": mask, "error": f"{type(e).__name__}: {e}"})
             return viol, {}
+    base = drive(case, bsv, bprob)
+    blog = full_log(bprob)
+    if any(rec["raised"] for rec in base) and not events:
+        return [], {"skipped": "the batching raises without listeners: " + str([rec["raised"] for rec in base][-1])}
+    if events:
+        return [{"what": "a listener was notified by a solver it was not attached to", "notifications": len(events),
+                 "first": events[0]["cb"]}], {}
     recs = drive(case, sv, prob, ctx)
     log = full_log(prob)
     compare_runs(base, blog, recs, log, viol)
@@ -350,14 +356,17 @@ def run_case_console(case):
     from iOpt.method.listener import ConsoleFullOutputListener
     viol = []
     bprob, bsv = make_solver(case)
-    base = drive(case, bsv, bprob)
-    if any(rec["raised"] for rec in base):
-        return [], {"skipped": "raises without listeners"}
     prob, sv = make_solver(case)
     try:
         sv.AddListener(ConsoleFullOutputListener(mode=case["mode"], iters=case["iters"]))
     except Exception as e:     # noqa: BLE001
         return [{"what": "attaching a listener raised", "error": f"{type(e).__name__}: {e}"}], {}
+    base = drive(case, bsv, bprob)
+    if any(rec["stdout"] for rec in base):
+        return [{"what": "a solver without listeners produced console output (listener notified by a foreign solver)",
+                 "output": next(rec["stdout"] for rec in base if rec["stdout"])[:200]}], {}
+    if any(rec["raised"] for rec in base):
+        return [], {"skipped": "raises without listeners"}
     recs = drive(case, sv, prob)
     compare_runs(base, full_log(bprob), recs, full_log(prob), viol)
     nrep = 0
